@@ -1,5 +1,6 @@
 """C19 - the unchecked cast of the rank-1 fast path only relabels identical types."""
 from .common import *
+from ..absint import deref_all
 
 LEVEL = 'proof'
 
@@ -90,6 +91,26 @@ def run(chk):
             if len(chk.samples) < 12:
                 chk.sample({"site": role, "inst": o['inst'], "A": o['A'], "B": o['B'], "equal": o['equal']})
     chk.floor('R19.2', 'admissible (site, implementor) obligations', n_adm, 7 * 2 + 6 * 3)
+    chk.rule('R19.5', "the fast path is unobservable: for every sink outcome (all elements succeed / one fails and the next succeeds) the rank-1 fast path and the general per-element path "
+                      "return the same result class, call the strategy for the same elements with the same per-element arguments, and return the same error")
+    from . import entry as E
+    for lead in (1, 2):
+        for name in ('interp_array', 'interp_array_into'):
+            for sink in ('ok', 'err'):
+                rf = E.run_entry(lib, lead, name, {'fast': True, 'sink': sink, 'shape_ok': True, 'qshape_ok': True})
+                rg = E.run_entry(lib, lead, name, {'fast': False, 'sink': sink, 'shape_ok': True, 'qshape_ok': True})
+                key = 'fast-vs-general-%dd-%s-%s' % (lead, name, sink)
+                if rf is None or rg is None or rf.outcome != 'return' or rg.outcome != 'return':
+                    chk.ob('R19.5', "%s: both paths evaluate (fast: %s %s, general: %s %s)" % (key, rf and rf.outcome, rf and rf.exc, rg and rg.outcome, rg and rg.exc),
+                           False, (rf.exc.where if rf is not None and rf.exc else ''), key + '-evaluates')
+                    continue
+                cls = lambda r: ('ok' if E.is_ok(r.value) else 'err' if E.is_err(r.value) else 'other')
+                same_err = (sink == 'ok') or (E.is_err(rf.value) and E.is_err(rg.value) and deref_all(rf.value.fields['0']) is rf.m.err_token and
+                                              deref_all(rg.value.fields['0']) is rg.m.err_token)
+                ok = (cls(rf) == cls(rg) and [s['elem'] for s in rf.m.sinks] == [s['elem'] for s in rg.m.sinks] and
+                      [s['queries'] for s in rf.m.sinks] == [s['queries'] for s in rg.m.sinks] and same_err)
+                chk.ob('R19.5', "%s: fast path and general path agree (result %s / %s, strategy calls for elements %s / %s)" %
+                       (key, cls(rf), cls(rg), [s['elem'] for s in rf.m.sinks], [s['elem'] for s in rg.m.sinks]), ok, '', key)
     if chk.tier == 'thorough':
         from .. import witness
         witness.mono_matrix(chk)
